@@ -169,10 +169,9 @@ Theorem proc_first_call clk e :
   pe_iv e = INone \/ pe_iv e = IZero -> snd (proc_step clk p_init e) = Val 0.
 Proof. intros [H|H]; unfold proc_step; rewrite H; reflexivity. Qed.
 
-(* the state a Process object holds after sampling reading p with n CPUs *)
-Definition holds (clk : positive) (n : Z) (st : pstate) (p : reading) : Prop :=
-  let '(t, u, s) := p in
-  exists q, p_sys st = Some q /\ q == t * inject_Z n /\ p_proc st = Some (secs clk u, secs clk s).
+(* the state a Process object holds after sampling reading p *)
+Definition holds (clk : positive) (st : pstate) (p : reading) : Prop :=
+  let '(t, u, s) := p in p_sys st = Some t /\ p_proc st = Some (secs clk u, secs clk s).
 
 Lemma qzero_scale a b n : (1 <= n)%Z -> a == b * inject_Z n -> qzero a = qzero b.
 Proof.
@@ -183,74 +182,108 @@ Proof.
   - apply qzero_iff in Eb. rewrite Eb, Qmult_0_l in H. apply qzero_iff in H. congruence.
 Qed.
 
-Lemma proc_finish_spec clk n st1 ta ua sa tb ub sb st2 :
-  (1 <= n)%Z -> st1 == ta * inject_Z n -> st2 == tb * inject_Z n ->
-  match snd (proc_finish st1 (secs clk ua, secs clk sa) st2 (secs clk ub, secs clk sb) n) with
+Lemma ncpu_eff_pos n : (1 <= ncpu_eff n)%Z.
+Proof. unfold ncpu_eff. destruct (n <? 1)%Z eqn:E; [lia|apply Z.ltb_ge in E; lia]. Qed.
+
+Lemma proc_finish_spec clk n ta ua sa tb ub sb :
+  (1 <= n)%Z ->
+  match snd (proc_finish ta (secs clk ua, secs clk sa) tb (secs clk ub, secs clk sb) n) with
   | Val q => q == spec_proc_pct clk (ta, ua, sa) (tb, ub, sb)
   | _ => False
   end.
 Proof.
-  intros Hn H1 H2. unfold proc_finish, spec_proc_pct. cbn [snd fst].
-  assert (D : st2 - st1 == (tb - ta) * inject_Z n) by (rewrite H1, H2; ring).
-  rewrite (qzero_scale _ _ n Hn D).
+  intros Hn. unfold proc_finish, spec_proc_pct. cbn [snd fst].
+  rewrite (qzero_scale ((tb - ta) * inject_Z n) (tb - ta) n Hn (Qeq_refl _)).
   destruct (qzero (tb - ta)) eqn:E; [reflexivity|].
   assert (NZ : ~ tb - ta == 0) by (intros C; apply qzero_iff in C; congruence).
-  rewrite D, !secs_minus, secs_plus.
-  field. split; [exact NZ|apply inject_nz; lia].
+  rewrite !secs_minus, secs_plus.
+  field. split; first [exact NZ | apply inject_nz; lia].
 Qed.
 
-(* one call on an object whose previous sample (if any) was taken with the same
-   number of CPUs: the demanded value, and the object now holds this call's last reading *)
+(* one call on an object holding its previous reading [prev] (if any), whatever cpu_count()
+   says now or said before: the demanded value, and the object then holds this call's last reading *)
 Theorem proc_step_spec clk st e prev :
-  let n := ncpu_eff (pe_ncpu e) in
-  match prev with Some p => holds clk n st p | None => st = p_init end ->
+  match prev with Some p => holds clk st p | None => st = p_init end ->
   pe_iv e <> INeg ->
   out_eq Qeq (snd (proc_step clk st e))
              (match pe_iv e with
               | IPos => Val (spec_proc_pct clk (pe_first e) (pe_t2 e, pe_u2 e, pe_s2 e))
               | _ => match prev with Some p => Val (spec_proc_pct clk p (pe_first e)) | None => Val 0 end
               end)
-  /\ holds clk n (fst (proc_step clk st e)) (pe_last e).
+  /\ holds clk (fst (proc_step clk st e)) (pe_last e).
 Proof.
-  intros n Hp Hiv.
-  assert (Hn : (1 <= n)%Z) by (unfold n, ncpu_eff; destruct (pe_ncpu e <? 1)%Z eqn:E; [lia|apply Z.ltb_ge in E; lia]).
-  unfold proc_step, pe_last, pe_first. fold n.
+  intros Hp Hiv.
+  pose proof (ncpu_eff_pos (pe_ncpu e)) as Hn.
+  unfold proc_step, pe_last, pe_first.
   destruct (pe_iv e) eqn:Ei; try congruence; cbn [is_pos].
-  - (* None *)
-    destruct prev as [[[ta ua] sa]|].
-    + destruct Hp as (q & Hs & Hq & Hpr). rewrite Hs, Hpr.
-      pose proof (proc_finish_spec clk n q ta ua sa (pe_t1 e) (pe_u1 e) (pe_s1 e) (pe_t1 e * inject_Z n) Hn Hq (Qeq_refl _)) as F.
-      split.
-      * unfold proc_finish in *. cbn [snd] in *. exact F.
-      * unfold proc_finish. cbn [fst]. eexists; repeat split; reflexivity.
-    + subst st. cbn. split; [reflexivity|]. eexists; repeat split; reflexivity.
-  - (* 0 *)
-    destruct prev as [[[ta ua] sa]|].
-    + destruct Hp as (q & Hs & Hq & Hpr). rewrite Hs, Hpr.
-      pose proof (proc_finish_spec clk n q ta ua sa (pe_t1 e) (pe_u1 e) (pe_s1 e) (pe_t1 e * inject_Z n) Hn Hq (Qeq_refl _)) as F.
-      split.
-      * unfold proc_finish in *. cbn [snd] in *. exact F.
-      * unfold proc_finish. cbn [fst]. eexists; repeat split; reflexivity.
-    + subst st. cbn. split; [reflexivity|]. eexists; repeat split; reflexivity.
-  - (* blocking *)
-    pose proof (proc_finish_spec clk n (pe_t1 e * inject_Z n) (pe_t1 e) (pe_u1 e) (pe_s1 e) (pe_t2 e) (pe_u2 e) (pe_s2 e)
-                                 (pe_t2 e * inject_Z n) Hn (Qeq_refl _) (Qeq_refl _)) as F.
-    split.
-    + unfold proc_finish in *. cbn [snd] in *. exact F.
-    + unfold proc_finish. cbn [fst]. eexists; repeat split; reflexivity.
+  - destruct prev as [[[ta ua] sa]|].
+    + destruct Hp as (Hs & Hpr). rewrite Hs, Hpr.
+      pose proof (proc_finish_spec clk _ ta ua sa (pe_t1 e) (pe_u1 e) (pe_s1 e) Hn) as F.
+      split; [exact F|]. unfold proc_finish. cbn [fst]. split; reflexivity.
+    + subst st. cbn. split; [reflexivity|]. split; reflexivity.
+  - destruct prev as [[[ta ua] sa]|].
+    + destruct Hp as (Hs & Hpr). rewrite Hs, Hpr.
+      pose proof (proc_finish_spec clk _ ta ua sa (pe_t1 e) (pe_u1 e) (pe_s1 e) Hn) as F.
+      split; [exact F|]. unfold proc_finish. cbn [fst]. split; reflexivity.
+    + subst st. cbn. split; [reflexivity|]. split; reflexivity.
+  - pose proof (proc_finish_spec clk _ (pe_t1 e) (pe_u1 e) (pe_s1 e) (pe_t2 e) (pe_u2 e) (pe_s2 e) Hn) as F.
+    split; [exact F|]. unfold proc_finish. cbn [fst]. split; reflexivity.
 Qed.
 
-(* with the number of CPUs changing between two calls the value is not 100*cpu/wall *)
-Theorem proc_ncpu_change_refuted :
-  exists clk evs,
-    Forall2 (out_eq Qeq) (proc_run clk [] evs) [Val 0; Val (-15 # 2)]
-    /\ Forall2 (out_eq Qeq) (spec_proc_run clk [] evs) [Val 0; Val (30 # 1)]
-    /\ forallb (fun oe => negb (is_neg (pe_iv (snd oe)))) evs = true.
+(* every sequence of calls on any number of Process objects, any cpu_count() answers *)
+Definition pinv (clk : positive) (m : amap pstate) (hist : list (Z * pevent)) : Prop :=
+  forall o, match spec_proc_prev hist o with
+            | Some p => exists st, lookup o m = Some st /\ holds clk st p
+            | None => lookup o m = None \/ lookup o m = Some p_init
+            end.
+
+Lemma prev_cons_other hist o o' e : o' <> o -> spec_proc_prev ((o, e) :: hist) o' = spec_proc_prev hist o'.
 Proof.
-  exists 100%positive,
-    [(0%Z, {| pe_iv := INone; pe_ncpu := 4; pe_t1 := 10; pe_u1 := 100; pe_s1 := 50; pe_t2 := 10; pe_u2 := 100; pe_s2 := 50 |});
-     (0%Z, {| pe_iv := INone; pe_ncpu := 2; pe_t1 := 12; pe_u1 := 150; pe_s1 := 60; pe_t2 := 12; pe_u2 := 150; pe_s2 := 60 |})].
-  split; [|split]; [| |reflexivity].
-  - vm_compute. repeat constructor.
-  - vm_compute. repeat constructor.
+  intros H. unfold spec_proc_prev. cbn [find fst snd].
+  apply Z.eqb_neq in H. rewrite Z.eqb_sym in H. rewrite Z.eqb_sym, Z.eqb_sym, H. reflexivity.
 Qed.
+Lemma prev_cons_neg hist o o' e : pe_iv e = INeg -> spec_proc_prev ((o, e) :: hist) o' = spec_proc_prev hist o'.
+Proof.
+  intros H. unfold spec_proc_prev. cbn [find fst snd]. rewrite H. cbn [is_neg negb]. rewrite andb_false_r. reflexivity.
+Qed.
+Lemma prev_cons_same hist o e : pe_iv e <> INeg -> spec_proc_prev ((o, e) :: hist) o = Some (pe_last e).
+Proof.
+  intros H. unfold spec_proc_prev. cbn [find fst snd]. rewrite Z.eqb_refl.
+  destruct (pe_iv e); try congruence; reflexivity.
+Qed.
+
+Theorem proc_run_spec_gen clk evs : forall m hist,
+  pinv clk m hist -> Forall2 (out_eq Qeq) (proc_run clk m evs) (spec_proc_run clk hist evs).
+Proof.
+  induction evs as [|[o e] evs IH]; intros m hist Inv; [constructor|].
+  cbn [proc_run spec_proc_run].
+  set (st := match lookup o m with Some s => s | None => p_init end).
+  assert (Pre : match spec_proc_prev hist o with Some p => holds clk st p | None => st = p_init end).
+  { specialize (Inv o). unfold st. destruct (spec_proc_prev hist o) as [p|].
+    - destruct Inv as (s & -> & H). exact H.
+    - destruct Inv as [-> | ->]; reflexivity. }
+  destruct (proc_step clk st e) as [st' res] eqn:Es.
+  destruct (is_neg (pe_iv e)) eqn:Neg.
+  - assert (Hn : pe_iv e = INeg) by (destruct (pe_iv e); try discriminate; reflexivity).
+    rewrite (proc_negative clk st e Hn) in Es. injection Es as <- <-.
+    constructor.
+    + unfold spec_proc_result. rewrite Hn. reflexivity.
+    + apply IH. intros o'. rewrite prev_cons_neg by assumption.
+      destruct (Z.eq_dec o' o) as [->|Hne].
+      * rewrite lookup_update_same. destruct (spec_proc_prev hist o) as [p|].
+        -- exists st. auto.
+        -- right. now rewrite Pre.
+      * rewrite lookup_update_other by assumption. apply Inv.
+  - assert (Hn : pe_iv e <> INeg) by (intros C; rewrite C in Neg; discriminate).
+    destruct (proc_step_spec clk st e (spec_proc_prev hist o) Pre Hn) as [R H]. rewrite Es in R, H. cbn [fst snd] in R, H.
+    constructor.
+    + unfold spec_proc_result. destruct (pe_iv e); try congruence; exact R.
+    + apply IH. intros o'.
+      destruct (Z.eq_dec o' o) as [->|Hne].
+      * rewrite prev_cons_same by assumption. rewrite lookup_update_same. exists st'. auto.
+      * rewrite prev_cons_other by assumption. rewrite lookup_update_other by assumption. apply Inv.
+Qed.
+
+Theorem proc_run_spec clk evs :
+  Forall2 (out_eq Qeq) (proc_run clk [] evs) (spec_proc_run clk [] evs).
+Proof. apply proc_run_spec_gen. intros o. cbn. now left. Qed.
